@@ -201,6 +201,7 @@ def eval_monad_groupby(a, backend):
         return arr
     vals, inverse = bknp.unique(arr, return_inverse=True)
     groups = [bknp.where(inverse == i)[0] for i in range(len(vals))]
+    groups.sort(key=lambda g: g[0])     # in order of first appearance
     return backend.kg_asarray(groups)
 
 
